@@ -549,7 +549,7 @@ def run(info, out):
                             break
                     out.violation(sig, "the %s build of the harness reported: %s" % (flavour, diag.split("\n")[1][:200] if "\n" in diag else diag[:200]),
                                   {"ops": culprit or [], "flavour": flavour, "diagnostic": diag, "no_failing_input_found": culprit is None, "broken": "sanitizer run"})
-    if not info["proof_ok"] and not out.violations:
+    if not info["proof_ok"] and not [v for v in out.violations if v[0] not in open_signatures("C16")]:
         out.notes.append("proof obligations are broken but %d sequences showed no disagreement and no property violation" % len(seqs))
     cov.update({"evaluations": n_eval, "distinct_nontrivial": len(distinct), "samples": samples, "traces_validated_against_impl": traces,
                 "sequences": len(seqs), "corpus_cases": len(corpus), "checked_build_sequences": len(batches[1][1]),
